@@ -769,9 +769,33 @@ fn process_cpu_seconds() -> f64 {
     ticks / 100.0
 }
 
-/// One scenario may use this much CPU time before the worker gives up on it (one step() that
-/// never comes back from a native, e.g. runaway regular-expression backtracking).
-pub const SCENARIO_CPU_BUDGET_S: f64 = 25.0;
+/// CPU time the process may burn while NO step completes (the heartbeat of the simulated host
+/// stands still) before the worker gives up: one step() that does not come back from a native,
+/// e.g. runaway regular-expression backtracking. Long scenarios made of many steps are not affected.
+pub const SCENARIO_CPU_BUDGET_S: f64 = 15.0;
+
+/// Watchdog loop shared by the batch workers and the isolated replay: returns when the budget is
+/// exhausted while the heartbeat stood still. `active` says whether a scenario is running.
+fn wait_until_one_step_is_stuck(active: impl Fn() -> bool) {
+    let mut last_beat = crate::host::HEARTBEAT.load(std::sync::atomic::Ordering::Relaxed);
+    let mut last_cpu = process_cpu_seconds();
+    let mut stuck = 0.0f64;
+    loop {
+        std::thread::sleep(std::time::Duration::from_millis(200));
+        let beat = crate::host::HEARTBEAT.load(std::sync::atomic::Ordering::Relaxed);
+        let cpu = process_cpu_seconds();
+        if beat != last_beat || !active() {
+            stuck = 0.0;
+        } else {
+            stuck += cpu - last_cpu;
+        }
+        last_beat = beat;
+        last_cpu = cpu;
+        if stuck > SCENARIO_CPU_BUDGET_S {
+            return;
+        }
+    }
+}
 
 pub fn batch_worker(seed: u64, from: usize, to: usize) {
     use std::io::Write;
@@ -782,15 +806,11 @@ pub fn batch_worker(seed: u64, from: usize, to: usize) {
     {
         let current = current.clone();
         std::thread::spawn(move || {
-            loop {
-                std::thread::sleep(std::time::Duration::from_millis(200));
-                if let Some((i, start)) = *current.lock().unwrap()
-                    && process_cpu_seconds() - start > SCENARIO_CPU_BUDGET_S
-                {
-                    println!("T {}", i);
-                    std::process::exit(3);
-                }
-            }
+            let c2 = current.clone();
+            wait_until_one_step_is_stuck(move || c2.lock().unwrap().is_some());
+            let i = current.lock().unwrap().map(|x| x.0).unwrap_or(0);
+            println!("T {}", i);
+            std::process::exit(3);
         });
     }
     // a big stack for the legitimate part; a native-stack overflow still kills the worker
@@ -832,14 +852,9 @@ pub fn exec_one_from_stdin() -> i32 {
         Ok(scn) => {
             // the same CPU-time budget as in the batch workers, so that a replay judges like the search
             std::thread::spawn(|| {
-                let start = process_cpu_seconds();
-                loop {
-                    std::thread::sleep(std::time::Duration::from_millis(200));
-                    if process_cpu_seconds() - start > SCENARIO_CPU_BUDGET_S {
-                        println!("FAIL step_did_not_return_within_cpu_budget used more than {} CPU seconds", SCENARIO_CPU_BUDGET_S);
-                        std::process::exit(0);
-                    }
-                }
+                wait_until_one_step_is_stuck(|| true);
+                println!("FAIL step_did_not_return_within_cpu_budget one step used more than {} CPU seconds", SCENARIO_CPU_BUDGET_S);
+                std::process::exit(0);
             });
             let h = std::thread::Builder::new().stack_size(64 * 1024 * 1024).spawn(move || crate::framework::execute_caught(&C06, &scn));
             match h.map(|h| h.join()) {
@@ -945,7 +960,7 @@ pub fn batch_stratum(seed: u64, n: usize, threads: usize, cov: &mut std::collect
                     let mut scn = batch_scenario(seed, i);
                     scn.isolated = true;
                     fails.push((
-                        Failure::new("step_did_not_return_within_cpu_budget", format!("scenario {} used more than {} CPU seconds", i, SCENARIO_CPU_BUDGET_S), json!({"index": i, "cpu_budget_s": SCENARIO_CPU_BUDGET_S})),
+                        Failure::new("step_did_not_return_within_cpu_budget", format!("one step of scenario {} used more than {} CPU seconds", i, SCENARIO_CPU_BUDGET_S), json!({"index": i, "cpu_budget_s": SCENARIO_CPU_BUDGET_S})),
                         serde_json::to_value(&scn).unwrap_or_default(),
                     ));
                     timed_out = true;
